@@ -37,6 +37,17 @@ RULE_ROUNDS = ("; scenario streams: whole histories of the real controller (fres
                "each scenario ends with a summary line judged by the cross-round oracle")
 
 
+def events(pkg, nq, nt, nontrivial):
+    """watch events delivered to the real handlers with workers off (TestVerifEvents)"""
+    return {"pkg": "pkg/controller/" + pkg, "test": "TestVerifEvents", "shards": 8, "n_quick": nq, "n_thorough": nt, "thorough_seeds": 2, "nontrivial": nontrivial}
+
+
+RULE_EVENTS = ("; event stream: generated scenarios (as for syncs, plus parents the controller's selector does not select, with and without its finalizer), "
+               "6 delivered events each: parent add/update/delete, child add/update/delete, related add/update/delete; deletes also as tombstones, updates also as "
+               "resync replays (same resourceVersion); event objects are stored objects or variants (controller reference to p1 / p2, wrong UID, wrong kind, other API "
+               "group or version, orphan matching / not matching, non-controller reference, other namespace, being deleted; parent updates touching status only, "
+               "generation, labels, annotations, deletion, selector labels); the work queue is read after the real handler ran")
+
 RULE_INTERLEAVE = ("; interleave stream: single syncs working from a cache filled before 1-2 outside writes (child deleted, deleted and recreated under the "
                    "same name, handed to another controller, relabelled, given an extra owner reference or label; parent starts being deleted or is replaced) "
                    "that happen either before the sync (stale cache) or just before its k-th request")
@@ -100,7 +111,8 @@ PROPS = {
     "C06": sync_prop(C06T + C06LT, ["update-child", "delete-child", "create-child"],
                      "non-trivial = some child write was accepted", ["children"]),
     "C03": sync_prop(C03T, ["hook-sync", "hook-finalize"],
-                     "non-trivial = a sync or finalize hook was called (its children map is compared with the owned set computed from the cache snapshot)", ["hook", "claim"]),
+                     "non-trivial = a sync or finalize hook was called (its children map is compared with the owned set computed from the cache snapshot)" + RULE_INTERLEAVE, ["hook", "claim"],
+                     extra_streams=[rounds("interleave", 600, 6000, ["hook-sync", "hook-finalize"])]),
     "C09": sync_prop(C09T, ["create-revision", "update-revision", "delete-revision"],
                      "non-trivial = a ControllerRevision was written in the sync" + RULE_ROUNDS, ["revisions", "children"],
                      extra_streams=[rounds("crash", 36, 360, ["rounds-crash", "create-revision", "update-revision", "delete-revision"])]),
@@ -111,18 +123,24 @@ PROPS = {
                      "non-trivial = a whole rollout scenario (summary line), or a sync that wrote a ControllerRevision" + RULE_ROUNDS, ["revisions", "children", "status"],
                      extra_streams=[rounds("rollout", 36, 360, ["rounds-rollout", "update-revision"])]),
     "C11": sync_prop(C11T, ["updateStatus-parent", "failed-updateStatus"],
-                     "non-trivial = a parent status write was attempted", ["status", "outcome"]),
+                     "non-trivial = a parent status write was attempted" + RULE_INTERLEAVE, ["status", "outcome"],
+                     extra_streams=[rounds("interleave", 600, 6000, ["updateStatus-parent", "failed-updateStatus"])]),
+    "C15": sync_prop(C15T, ["hook-customize", "related-selected"],
+                     "non-trivial = the customize hook was called in the sync, or (event stream) the related object is selected by some parent's rules" + RULE_EVENTS,
+                     ["hook", "outcome", "events"], extra_streams=[events("composite", 600, 6000, ["related-selected", "related-add", "related-update", "related-delete"])]),
     "C16": sync_prop(C16T, ["update-parent", "updateStatus-parent"],
                      "non-trivial = the decorated object was written (decorator traces); composite traces are not judged", ["parent", "status", "hook"]),
     "C12": sync_prop(C12T, ["failed-create", "failed-update", "failed-delete", "failed-updateStatus", "outcome-error"],
                      "non-trivial = some request failed or the sync reported an error" + RULE_ROUNDS, ["outcome", "children", "status", "claim", "revisions", "finalizer", "parent"],
-                     extra_streams=[rounds("faults", 96, 960, ["rounds-faults", "failed-create", "failed-update", "failed-delete", "failed-updateStatus", "outcome-error"])]),
+                     extra_streams=[rounds("faults", 96, 960, ["rounds-faults", "failed-create", "failed-update", "failed-delete", "failed-updateStatus", "outcome-error"]),
+                                    rounds("malformed", 800, 8000, ["outcome-error", "hook-sync", "hook-finalize"])]),
     "C13": sync_prop(C13T, ["outcome-error", "hook-sync", "hook-finalize"],
                      "non-trivial = a hook was called; malformed stream: the scripted hook answer with one value at a random path replaced by every JSON type, "
                      "truncated / non-object / null bodies and non-200 codes", ["outcome", "hook", "children"],
                      extra_streams=[rounds("malformed", 800, 8000, ["outcome-error", "hook-sync", "hook-finalize"])]),
     "C10": sync_prop(C10T + C10ST, ["update-parent", "hook-finalize", "create-child"],
-                     "non-trivial = the parent was edited, the finalize hook called, or a child created", ["finalizer", "parent", "hook", "children"]),
+                     "non-trivial = the parent was edited, the finalize hook called, or a child created" + RULE_ROUNDS, ["finalizer", "parent", "hook", "children"],
+                     extra_streams=[rounds("faults", 96, 960, ["update-parent", "hook-finalize", "create-child", "failed-update"])]),
 
     "C05": {
         "theorems": [
